@@ -22,10 +22,11 @@ CONV = ["cp_to_tensor", "cp_to_unfolded", "cp_norm", "tucker_to_tensor", "tt_to_
 SVD = ["truncated_svd", "symeig_svd", "randomized_svd", "svd_nonneg"]
 DECOMP = ["parafac", "parafac_random", "parafac_normalize", "parafac_sparsity", "nn_parafac", "nn_parafac_hals", "constrained_nonneg", "constrained_simplex",
           "constrained_l1", "constrained_unimodal", "constrained_smooth", "randomised_parafac", "tucker", "tucker_random", "nn_tucker", "nn_tucker_hals", "nn_tucker_hals_as",
-          "parafac2", "parafac2_nn", "tr_als", "tr_als_sampled", "cmtf", "tensor_train", "tensor_train_matrix", "tensor_ring", "robust_pca", "cp_power", "symmetric_power"]
+          "parafac2", "parafac2_nn", "tr_als", "tr_als_sampled", "cmtf", "tensor_train", "tensor_train_matrix", "tensor_ring", "robust_pca", "cp_power", "symmetric_power",
+          "masked_parafac", "masked_nn_parafac", "masked_tucker", "masked_robust_pca", "masked_svd", "masked_cp_to_tensor"]
 PROX = ["prox_non_negative", "soft_thresholding", "l2_prox", "l2_square_prox", "smoothness_prox", "simplex_prox", "soft_sparsity_prox", "monotonicity_prox",
         "unimodality_prox", "hard_thresholding", "normalized_sparsity_prox", "prox_normalize", "svd_thresholding", "procrustes"]
-SOLVERS = ["hals_nnls", "hals_nnls_cold", "fista", "active_set_nnls", "admm", "admm_constrained"]
+SOLVERS = ["hals_nnls", "hals_nnls_cold", "fista", "active_set_nnls", "active_set_restart", "admm", "admm_constrained"]
 REG = ["cp_regressor", "tucker_regressor", "cp_plsr"]
 OTHER = ["np_scalar_hyper", "random_cp", "random_tucker", "random_tt", "random_tr", "random_parafac2", "svd_compress", "metrics"]
 ENTRY = TENALG + CONV + SVD + DECOMP + PROX + SOLVERS + REG + OTHER
@@ -229,6 +230,30 @@ def build(entry, rs, dt):
         return lambda: D.tensor_ring(X, [1] + [2] * (order - 1) + [1], mode=0), real_ok
     if entry == "robust_pca":
         return lambda: D.robust_pca(X, n_iter_max=3, reg_E=0.5, random_state=sd) if False else D.robust_pca(X, n_iter_max=3, reg_E=0.5), real_ok
+    if entry.startswith("masked_"):
+        # the observation mask is documented as an array of booleans: whatever its dtype, the data decide the precision
+        mk = gen.choice(rs, ["bool", "bool", "int64", "float64", "same"])
+        Xm = Xp if entry == "masked_nn_parafac" else X
+        mask = (rs.uniform(size=Xm.shape) < 0.8)
+        mask = mask.astype(Xm.real.dtype if mk == "same" else mk)
+        rk = [int(rs.randint(1, min(s_, 3) + 1)) for s_ in shp]
+        if entry == "masked_parafac":
+            ini = gen.choice(rs, ["svd", "random"])
+            return lambda: D.parafac(Xm, R_, n_iter_max=it, init=ini, mask=mask, random_state=sd, return_errors=True), real_ok
+        if entry == "masked_nn_parafac":
+            ini = gen.choice(rs, ["svd", "random"])
+            return lambda: D.non_negative_parafac(Xm, R_, n_iter_max=it, init=ini, mask=mask, random_state=sd, return_errors=True), real_ok
+        if entry == "masked_tucker":
+            ini = gen.choice(rs, ["svd", "random"])
+            return lambda: D.tucker(Xm, rk, n_iter_max=it, init=ini, mask=mask, random_state=sd), real_ok
+        if entry == "masked_robust_pca":
+            return lambda: D.robust_pca(Xm, mask=mask, n_iter_max=3, reg_E=0.5), real_ok
+        if entry == "masked_svd":
+            M2 = Xm.reshape(Xm.shape[0], -1)
+            return lambda: svd_interface(M2, n_eigenvecs=int(rs.randint(1, min(M2.shape) + 1)), mask=mask.reshape(M2.shape)), ["ret[1]"]
+        if mk in ("int64", "float64"):
+            mask = mask.astype(bool)
+        return lambda: cpm.cp_to_tensor((w, list(fs)), mask=mask), real_ok
     if entry == "cp_power":
         return lambda: D.parafac_power_iteration(X, R_, n_repeat=2, n_iteration=2), real_ok
     if entry == "symmetric_power":
@@ -257,6 +282,17 @@ def build(entry, rs, dt):
             return lambda: nnls.fista(UtM, UtU, x=None if rs.rand() < 0.5 else np.abs(A([n, k])), n_iter_max=30, sparsity_coef=0.1 if rs.rand() < 0.5 else 0), real_ok
         if entry == "active_set_nnls":
             return lambda: nnls.active_set_nnls(UtM[:, 0], UtU, x=None if rs.rand() < 0.5 else np.abs(A([n])), n_iter_max=30), real_ok
+        if entry == "active_set_restart":
+            # warm start that is positive on two identical regressors: the first passive-set solve is singular and the solver
+            # restarts from zeros (a separate code path)
+            n2 = n + 2
+            U2 = np.abs(A([n2 + 2, n2])) + np.eye(n2 + 2, n2, dtype=dt)
+            U2[:, 1] = U2[:, 0]
+            G, g = (U2.T @ U2).astype(dt), (U2.T @ np.abs(A([n2 + 2]))).astype(dt)
+            x0 = np.zeros(n2, dtype=dt)
+            x0[:2] = 1
+            x0[2:] = (rs.uniform(size=n2 - 2) < 0.5)
+            return lambda: nnls.active_set_nnls(g, G, x=x0.copy(), n_iter_max=30), real_ok
         rows = 3
         Xd = A([rows, n + 2])
         uM, uU = (Xd @ U).astype(dt), UtU
